@@ -89,7 +89,7 @@ func TestGovcReplay(t *testing.T) {
 						} else {
 							pw.WriteString(string(buf))
 						}
-						if d := time.Since(start); d > 500*time.Millisecond {
+						if d := time.Since(start); d > 3*time.Second {
 							report("a write of %d bytes took %v with consumer=%s: the writer waited for the consumer", n, d, consumer)
 						}
 						if pw.Size() != *tot {
@@ -110,8 +110,8 @@ func TestGovcReplay(t *testing.T) {
 					go func() { pw.Close(); close(closed) }()
 					select {
 					case <-done:
-					case <-time.After(2 * time.Second):
-						report("room=%d consumer=%s seq#%d: Status() was not closed within 2s after Close", room, consumer, si)
+					case <-time.After(10 * time.Second):
+						report("room=%d consumer=%s seq#%d: Status() was not closed in time after Close", room, consumer, si)
 						continue
 					}
 					<-closed
